@@ -24,7 +24,9 @@ from typing import Any, Dict, List, Optional
 
 COMP = ["ampere_sgemm_128x64_nn", "void at::native::vectorized_elementwise_kernel<4, at::native::FillFunctor<float>>(int)",
         "void cutlass::Kernel<cutlass_80_tensorop_s1688gemm>(Params)", "triton_poi_fused_add_0", "sm80_xmma_gemm_f32f32"]
-COMM = ["ncclKernel_AllReduce_RING_LL_Sum_float(ncclWorkElem)", "ncclDevKernel_AllGather_RING_LL(ncclDevComm*, unsigned long)"]
+COMM = ["ncclKernel_AllReduce_RING_LL_Sum_float(ncclWorkElem)", "ncclDevKernel_AllGather_RING_LL(ncclDevComm*, unsigned long)",
+        # templated form: only the shortened name starts with "nccl"
+        "void ncclKernel_AllReduce_RING_LL_Sum<float, 4>(ncclDevComm*, unsigned long, ncclWork*)"]
 OTHERK = ["fooSync_kernel", "barMemcpyHelper"]          # kernel names of type OTHER
 CPY = ["Memcpy HtoD (Pageable -> Device)", "Memcpy HtoD (Pinned -> Device)", "Memcpy DtoH (Device -> Pinned)", "Memcpy DtoH (Device -> Pageable)",
        "Memcpy DtoD (Device -> Device)"]     # several raw names share one copy type
@@ -40,7 +42,7 @@ DEFAULTS: Dict[str, Any] = dict(
     max_depth=3, ops_per_step=(2, 5), big_corr=False, autograd=False, bwd_annotation=True, step_gap=(0, 1, 1, 7),
     pre_ops=1, post_ops=1, first_step=None, file_order="time", p_plain_rt=0.08, kernel_durs=(0, 1, 5, 20, 60),
     launch_lat=(0, 0, 1, 3, 10), queue_lat=(0, 0, 1, 5, 40), device_pid=0, repeat_names=False, annotation_nest=False,
-    p_leaf_children=(0, 3), ops_pool=None, p_unlaunched=0.0, sync_straddle=False, source_counters=False, outer_frame=False, corr_zero=False, small_corr=False, tid_base=None, tid_desc=False, post_launch=False,
+    p_leaf_children=(0, 3), ops_pool=None, p_unlaunched=0.0, sync_straddle=False, source_counters=False, outer_frame=False, corr_zero=False, small_corr=False, tid_base=None, tid_desc=False, post_launch=False, exotic_launch=False,
 )
 
 
@@ -111,6 +113,10 @@ class Sim:
         ts = th["t"]
         dur = max(1, self.d(2, 9))
         rname = {"k": self.r.choice(LAUNCH_K), "cpy": "cudaMemcpyAsync", "set": "cudaMemsetAsync"}[kind]
+        if p["exotic_launch"] and self.r.random() < 0.3:
+            # launch APIs beyond the handful most analyses know by name; the correlation link is what identifies the launch call
+            rname = {"k": self.r.choice(["cudaLaunchCooperativeKernel", "cudaGraphLaunch"]), "cpy": self.r.choice(["cudaMemcpy", "cudaMemcpy2DAsync"]),
+                     "set": "cudaMemset"}[kind]
         L = self.X("cuda_runtime" if rname != "cuLaunchKernel" else "cuda_driver", rname, self.host_pid, th["tid"], ts, dur,
                    {"correlation": c, "cbid": 211, "External id": c})
         if self.r.random() < p["p_unlaunched"]:
@@ -479,3 +485,28 @@ def huge_trace(seed: int, rank: int = 0, **over: Any) -> Dict[str, Any]:
                       autograd=False, n_threads=2, base=1000, file_order="time", outer_frame=False)
     p.update(over)
     return gen_trace(rnd, **p)
+
+
+def add_device_spans(rnd: random.Random, trace: Dict[str, Any], p: float = 0.5) -> int:
+    """Insert device-side events that are NOT kernels / copies / memsets / sync records but carry a stream id: GPU-side user
+    annotations and profiler ranges spanning a run of kernels of one stream.  They are legitimate trace content and must not be
+    taken for kernels by per-stream analyses.  Appended after the existing events (ids of the others stay).  Returns #added."""
+    ev = trace["traceEvents"]
+    by_stream: Dict[Any, List[Dict[str, Any]]] = {}
+    for e in ev:
+        if e.get("ph") == "X" and e.get("cat") in ("kernel", "gpu_memcpy", "gpu_memset") and isinstance(e.get("args"), dict) and "stream" in e["args"]:
+            by_stream.setdefault((e["pid"], e["args"]["stream"]), []).append(e)
+    n = 0
+    for (pid, s), ks in sorted(by_stream.items(), key=lambda kv: str(kv[0])):
+        ks.sort(key=lambda e: e["ts"])
+        if len(ks) < 2 or rnd.random() > p:
+            continue
+        a = rnd.randrange(len(ks) - 1)
+        b = rnd.randrange(a + 1, len(ks))
+        ts = ks[a]["ts"]
+        end = max(k["ts"] + k["dur"] for k in ks[a:b + 1])
+        ev.append({"ph": "X", "cat": rnd.choice(["gpu_user_annotation", "gpu_user_annotation", "cuda_profiler_range"]),
+                   "name": rnd.choice(["## forward ##", "nccl:all_reduce", "region_of_interest"]), "pid": pid, "tid": s, "ts": ts,
+                   "dur": max(1, end - ts), "args": {"stream": s, "device": pid}})
+        n += 1
+    return n
